@@ -3,7 +3,7 @@
 (neither /verif's build nor /repo is touched).  Writes seeded/RESULTS.md.   usage: tools/test_seeds.py [seed-id ...]"""
 import json, os, shutil, subprocess, sys, time
 V = os.path.dirname(os.path.dirname(os.path.abspath(__file__)))
-W = "/tmp/vseed"
+W = os.environ.get("SEEDS_W", "/tmp/vseed")
 only = sys.argv[1:]
 subprocess.run(["rsync", "-a", "--delete", "--exclude", ".git", "--exclude", "replays", V + "/", W + "/"], check=True)
 rows = []
@@ -13,7 +13,7 @@ for sid in sorted(os.listdir(os.path.join(V, "seeded"))):
         continue
     meta = json.load(open(os.path.join(d, "meta.json")))
     props = [meta["property"]] + meta.get("also", [])
-    rc = "/tmp/rc_seed"
+    rc = os.environ.get("SEEDS_RC", "/tmp/rc_seed")
     shutil.rmtree(rc, ignore_errors=True)
     subprocess.run(["git", "clone", "-q", "/repo", rc], check=True)
     a = subprocess.run(["git", "-C", rc, "apply", os.path.join(d, "patch.diff")], capture_output=True, text=True)
@@ -39,7 +39,7 @@ for sid in sorted(os.listdir(os.path.join(V, "seeded"))):
         print(sid, p, res, detail[:100], flush=True)
     shutil.rmtree(rc, ignore_errors=True)
 # merge with the rows of earlier runs (a run restricted to some seeds must not forget the others)
-res_path = os.path.join(V, "seeded", "RESULTS.md")
+res_path = os.path.join(V, "seeded", os.environ.get("SEEDS_RESULTS", "RESULTS.md"))
 old_rows = {}
 if os.path.exists(res_path):
     for line in open(res_path):
@@ -53,7 +53,7 @@ for r in rows:
     old_rows[(r[0], r[1])] = r
 rows = [old_rows[k] for k in sorted(old_rows)]
 with open(res_path, "w") as f:
-    f.write("# Seeded changes vs checks (tools/test_seeds.py; scratch copies, quick tier, seed 0)\n\n| seed | check | result | s |\n|---|---|---|---|\n")
+    f.write("# Seeded changes vs checks (tools/test_seeds.py; scratch copies, quick tier, seed %s)\n\n| seed | check | result | s |\n|---|---|---|---|\n" % os.environ.get("VERIF_SEED", "0"))
     for sid, p, res, t in rows:
         f.write(f"| {sid} | {p} | {res} | {t:.0f} |\n")
 shutil.rmtree(W, ignore_errors=True)
